@@ -501,6 +501,11 @@ M("r25-c-table-released-unconditionally", ["C14"], "break",
 M("c03-revert-F33-shared-alt-lists", ["C04", "C03"], "break",
   [("yaep.c", "      child = (i == disp ? NULL : anode->val.anode.children[i]);\n      child_place = &node->val.anode.children[i];", "      child = NULL;\n      child_place = &node->val.anode.children[i];\n      if (i != disp)\n	*child_place = anode->val.anode.children[i];\n      else")],
   "copy_anode/node-store")
+M("t3-revert-F34-skip-cost-as-backward-distance", ["C06", "C12"], "break",
+  [("yaep.c", "	      push_recovery_state (state.last_original_pl_el, cost + 1,
+				   state.back_toks);", "	      push_recovery_state (state.last_original_pl_el, cost + 1,
+				   cost + 1);")],
+  "error_recovery/first-ignored")
 
 # ---- R8 / R2f (C16, C19) ----------------------------------------------------------------------------
 M("r8-revert-F14", ["C19", "C16"], "break", [("hashtab.cpp", "		  entry_ptr = first_deleted_entry_ptr;\n		  *entry_ptr = EMPTY_ENTRY;", "		  entry_ptr = first_deleted_entry_ptr;\n		  *entry_ptr = DELETED_ENTRY;")], "find_hash_table_entry~")
